@@ -72,6 +72,35 @@ func init() {
 			fr.i.ps().covers[args[0].(string)] = true
 			return nil
 		},
+		// fork-free Boolean / selection operators for oracles
+		"vAnd": func(fr *frame, args []value) value { return vAnd(args[0], args[1]) },
+		"vOr": func(fr *frame, args []value) value {
+			return symNot(vAnd(symNot(args[0]), symNot(args[1])))
+		},
+		"vNot": func(fr *frame, args []value) value { return symNot(args[0]) },
+		"vIte": func(fr *frame, args []value) value {
+			c, isSymC := args[0].(sv)
+			if !isSymC {
+				if args[0].(bool) {
+					return args[1]
+				}
+				return args[2]
+			}
+			tt := c.T.tt
+			a, ka := lift(tt, args[1])
+			b, _ := lift(tt, args[2])
+			return norm(tt.Ite(c.T, a, b), ka)
+		},
+		"vKnown": func(fr *frame, args []value) value {
+			fr.i.ps().known = args[0].(string)
+			return nil
+		},
+		"vParam": func(fr *frame, args []value) value {
+			if v, ok := fr.i.w.cfg.Params[args[0].(string)]; ok {
+				return v
+			}
+			return args[1]
+		},
 		"vConcrete": func(fr *frame, args []value) value { return fr.i.concretize(args[0]) },
 		"vIsEngine": func(fr *frame, args []value) value { return true },
 		// vOut records an observed output string for the evidence samples
